@@ -111,13 +111,17 @@ pub mod utils;
 /// Model controls and ghost helpers (not part of the real crate's API).
 pub mod model {
     #![allow(static_mut_refs)]
-    static mut HONEST_POINTS: bool = false;
+    // Kani 0.68 pitfall (found by the framework owner, see vmodel-core): a `static mut` whose initialiser has the same bytes as
+    // some program constant can become the backing memory of that constant, so writing it changes the constant. Small mutable
+    // statics of the model therefore start from a distinctive magic value instead of 0 / false.
+    const FLAG_MAGIC: u64 = 0x73_6f64_6975_6d00;
+    static mut HONEST_POINTS_FLAG: u64 = FLAG_MAGIC;
     /// true: `ed25519_pk_to_curve25519` / `scalarmult` *assume* their point argument is acceptable instead of branching.
     pub fn assume_honest_points(b: bool) {
-        unsafe { HONEST_POINTS = b }
+        unsafe { HONEST_POINTS_FLAG = FLAG_MAGIC | b as u64 }
     }
     pub(crate) fn honest_points() -> bool {
-        unsafe { HONEST_POINTS }
+        unsafe { HONEST_POINTS_FLAG == FLAG_MAGIC | 1 }
     }
 }
 
